@@ -61,6 +61,10 @@ pub struct Manual<T> {
     pub flag: Arc<Flag>,
     pub done: Option<T>,
     pub panicked: bool,
+    /// keep a completed future alive (un-polled) until `drop_fut`: callers may hold on to a finished
+    /// future (pinned on the stack, a select! arm, a struct field) and drop it much later
+    pub keep_done: bool,
+    pub parked: Option<Pin<Box<dyn Future<Output = T>>>>,
 }
 
 impl<T> Manual<T> {
@@ -70,6 +74,8 @@ impl<T> Manual<T> {
             flag: Arc::new(Flag(AtomicBool::new(false))),
             done: None,
             panicked: false,
+            keep_done: false,
+            parked: None,
         }
     }
     /// Poll once. Returns true if the future completed in this poll (or panicked).
@@ -82,7 +88,11 @@ impl<T> Manual<T> {
         match r {
             Ok(Poll::Ready(v)) => {
                 self.done = Some(v);
-                self.fut = None;
+                if self.keep_done {
+                    self.parked = self.fut.take();
+                } else {
+                    self.fut = None;
+                }
                 true
             }
             Ok(Poll::Pending) => false,
@@ -98,6 +108,7 @@ impl<T> Manual<T> {
     }
     pub fn drop_fut(&mut self) {
         self.fut = None;
+        self.parked = None;
     }
     pub fn alive(&self) -> bool {
         self.fut.is_some()
